@@ -7,4 +7,4 @@ package builtins
 // C09g: a process-wide counter of nested builtin calls, which made one VM's depth limit depend on what other VMs were
 // doing; seed C05i: a process-wide cache of parsed programs, which the compiler then mutated, so the second compilation
 // of a source differed from the first) needs a disposition here. Dispositions of the listed ones: codecs is guarded by mutex (C09.codecs.*).
-//@ scan[C09.pkgvars.builtins] C09,C05 pkgvars github.com/risor-io/risor/builtins: codecs mutex
+//@ scan[C09.pkgvars.builtins] C09,C05,C19 pkgvars github.com/risor-io/risor/builtins: codecs mutex
